@@ -47,16 +47,132 @@ def facts(tier, ndebug=True):
 
 
 def dyn_parts(off):
-    """('dyn', const, ((scale, term),...)) -> (const, [(scale, term)]) ; int -> (int, [])"""
+    """byte offset of a pointer -> (const, [(scale, term)]): int, ('dyn', a, b) from address arithmetic (nested sums,
+    b either another offset or a tuple of (scale, index term) pairs); (None, None) if it has another form"""
     if isinstance(off, int):
         return off, []
-    if off[0] == 'dyn':
-        c, terms = off[1], off[2]
-        if isinstance(c, tuple) and c[0] == 'dyn':
-            c2, t2 = dyn_parts(c)
-            return c2, list(t2) + list(terms)
-        return c, list(terms)
+    if isinstance(off, tuple) and off and off[0] == 'dyn' and len(off) == 3:
+        c1, t1 = dyn_parts(off[1])
+        b = off[2]
+        if isinstance(b, int):
+            c2, t2 = b, []
+        elif isinstance(b, tuple) and b and b[0] == 'dyn':
+            c2, t2 = dyn_parts(b)
+        elif isinstance(b, tuple) and all(isinstance(x, tuple) and len(x) == 2 and isinstance(x[0], int) for x in b):
+            c2, t2 = 0, list(b)
+        else:
+            return None, None
+        if c1 is None or c2 is None:
+            return None, None
+        return c1 + c2, list(t1) + list(t2)
     return None, None
+
+
+def off_poly(off):
+    """byte offset as a polynomial mod 2^64 over index terms, or None"""
+    c, terms = dyn_parts(off)
+    if c is None:
+        return None
+    p = ir.Poly.const(c, 1 << 64)
+    for sc, t in terms:
+        p = p + ir.Poly.const(sc, 1 << 64) * ir.to_poly(t, 'int', width=64)
+    return p
+
+
+def counter_iv(f):
+    """a loop-carried value counting 0, 1, 2, ..."""
+    ivs = [k for k, (init, step) in f["iv"].items() if init == ('ci', 0, 64) and step and len(step) == 1 and step[0] == ('op', 'add', 'i64', ('iv', k, init), ('ci', 1, 64))]
+    return ivs[0] if ivs else None
+
+
+def writer_shape(fw):
+    """'per-element': one loop with a 0,1,2,.. counter whose writes have constant sizes and analysable addresses, nothing
+    else written between count word and footer; 'bulk': no loop, one write between count word and footer; else None"""
+    if len(fw["loops"]) == 1 and counter_iv(fw) is not None and fw["loop_items"] and len(fw["pre"]) == 4 and len(fw["post"]) == 2 \
+            and all(it["bytes"] is not None and it["terms"] is not None for it in fw["loop_items"]):
+        return "per-element"
+    if not fw["loops"] and len(fw["pre"]) == 7:
+        return "bulk"
+    return None
+
+
+def reader_shape(fr):
+    if len(fr["loops"]) == 1 and counter_iv(fr) is not None and fr["loop"] and all(c.args[2][0] == 'ci' for c in fr["loop"]) \
+            and all(dyn_parts(st.off)[0] is not None for st in fr["stores"]):
+        return "per-element"
+    return None
+
+
+def opaque_poly(pl):
+    return any(a[0] in ('sel', 'op', 'cmp', 'fn') for mon in pl.t for a in mon if isinstance(a, tuple))
+
+
+def writer_stream(fw, hw):
+    """Shape-independent necessary condition on a looping writer: consecutive writes abut.  Within one round the
+    next write starts where the previous one ended; across the back edge (on rounds that are followed by another
+    round) the first write of the next round starts where the last write of this round ended; the first round starts
+    at the beginning of the buffer.  Returns (violation text | None, decided?)."""
+    items = fw["loop_items"]
+    if not items:
+        return None, False
+    s = fw["sym"]
+    from .hilbert_curve import subst
+    latch = list(getattr(s, "latch_cond", {}).values())
+    if len(latch) != 1:
+        return None, False
+    cont = ir.common_lits(latch[0])
+    polys = []
+    for it in items:
+        p = it["call"].args[1]
+        if p[0] != 'ptr' or not (p[1][0] == 'mem' and p[1][1][0] == 'ld' and p[1][1][1] == ('arg', 0) and p[1][1][2] == 8):
+            return None, False
+        size = it["call"].args[2]
+        for l in cont:                      # sizes of a round that is followed by another round
+            size = ir.restrict(size, l[1] if l[0] == 'not' else l, l[0] != 'not')
+        o, z = off_poly(p[2]), ir.to_poly(size, 'int', width=64)
+        if o is None:
+            return None, False
+        alts = ir.poly_cases(size, 'int', width=64)
+        if alts and len({a for _, a in alts}) > 1:
+            # the length is chosen among several expressions (a last, shorter block): in rounds that are followed by
+            # another one the length must be the distance to the next block, so one of the alternatives has to be
+            # that distance identically
+            if len(items) != 1:
+                return None, False
+            m_ = {('iv', k, init): step[0] for k, (init, step) in fw["iv"].items() if step and len(step) == 1 and step[0] is not None}
+            nxt = off_poly(subst(p[2], m_))
+            if nxt is None or opaque_poly(nxt - o):
+                return None, False
+            if not any(o + a == nxt for _, a in alts):
+                return ("consecutive blocks start %s bytes apart but a block is %s bytes long: blocks overlap or leave a gap, the payload is not the buffer's bytes in order"
+                        % ((nxt - o).show(), " or ".join(sorted({a.show() for _, a in alts})))), True
+            z = nxt - o
+        polys.append((o, z, p[2], size))
+    opaque = opaque_poly
+    for j in range(len(polys) - 1):
+        if polys[j][0] + polys[j][1] != polys[j + 1][0]:
+            if opaque(polys[j][0] + polys[j][1] - polys[j + 1][0]):
+                return None, False
+            return "write %d of a round ends at byte offset %s of the buffer but write %d starts at %s: the payload is not the buffer's bytes in order" % (
+                j, (polys[j][0] + polys[j][1]).show(), j + 1, polys[j + 1][0].show()), True
+    m = {('iv', k, init): step[0] for k, (init, step) in fw["iv"].items() if step and len(step) == 1 and step[0] is not None}
+    m0 = {('iv', k, init): init for k, (init, step) in fw["iv"].items()}
+    first_next = off_poly(subst(polys[0][2], m))
+    first_0 = off_poly(subst(polys[0][2], m0))
+    end = polys[-1][0] + polys[-1][1]
+    if first_next is None or first_0 is None:
+        return None, False
+    if first_0.t:
+        if opaque(first_0):
+            return None, False
+        return "the first write of the loop starts at byte offset %s of the buffer, not at its beginning" % first_0.show(), True
+    if first_next != end:
+        d = first_next - end
+        if opaque(d):
+            return None, False
+        return ("a round that is followed by another one ends at byte offset %s of the buffer, the next round starts at %s (difference %s): blocks overlap or leave a gap, the payload is not the buffer's bytes in order"
+                % (end.show(), first_next.show(), d.show())), True
+    return None, True
 
 
 def analyse_writer(h):
@@ -68,7 +184,7 @@ def analyse_writer(h):
     loop = [c for c in ws if s.in_loop(c.block)]
     post = [c for c in ws if not s.in_loop(c.block) and c not in pre]
     f["pre"] = [(c.args[2][1] if c.args[2][0] == 'ci' else None, io.content_of(c, 1, c.args[2][1], h.module, s.atom_bits) if c.args[2][0] == 'ci' else None, c) for c in pre]
-    f["post"] = [(c.args[2][1], io.content_of(c, 1, c.args[2][1], h.module, s.atom_bits), c) for c in post]
+    f["post"] = [(c.args[2][1] if c.args[2][0] == 'ci' else None, io.content_of(c, 1, c.args[2][1], h.module, s.atom_bits) if c.args[2][0] == 'ci' else None, c) for c in post]
     items = []
     for c in loop:
         p = c.args[1]
@@ -129,12 +245,9 @@ def width_lits(lits, width_call):
 
 def loop_shape(f, bound_ok):
     """one loop, induction from 0 by +1, continue iff iv+1 <(!=) bound"""
-    if len(f["loops"]) != 1 or len(f["iv"]) < 1:
-        return "expected exactly one element loop, found %d" % len(f["loops"])
-    ivs = [k for k, (init, step) in f["iv"].items() if init == ('ci', 0, 64) and step and step[0] == ('op', 'add', 'i64', ('iv', k, init), ('ci', 1, 64))]
-    if not ivs:
-        return "no induction variable counting 0,1,2,... found in the element loop"
-    k = ivs[0]
+    k = counter_iv(f)
+    if len(f["loops"]) != 1 or k is None:
+        raise AnalysisBroken("array payload: expected one element loop with a 0,1,2,.. counter (%d loops)" % len(f["loops"]))
     nxt = ('op', 'add', 'i64', ('iv', k, ('ci', 0, 64)), ('ci', 1, 64))
     for lits in f["latch"]:
         for l in lits:
@@ -163,33 +276,57 @@ def check_writer(rep, rid, hw, fw):
     sz = SZ[T]
     obj = ('arg', 0)
     why = None
-    if len(fw["pre"]) != 4 or not const_content(fw["pre"][0], io.MAGIC_HEADER, 4) or not const_content(fw["pre"][1], TAG, 4):
+    shape = writer_shape(fw)
+    pre = fw["pre"]
+    post = fw["post"] if shape != "bulk" else pre[5:7]
+    if len(pre) < 4 or not const_content(pre[0], io.MAGIC_HEADER, 4) or not const_content(pre[1], TAG, 4):
         why = "payload is not preceded by the global magic word and the array tag"
-    elif not const_content(fw["pre"][2], sz, 4):
+    elif not const_content(pre[2], sz, 4):
         why = "float-width word written is not sizeof(%s) = %d" % (T, sz)
-    elif fw["pre"][3][0] != 8 or fw["pre"][3][2].args[1] != ('ptr', obj, 0):
+    elif pre[3][0] != 8 or pre[3][2].args[1] != ('ptr', obj, 0):
         why = "element-count word is not the 8-byte m_size member"
-    elif len(fw["post"]) != 2 or not const_content(fw["post"][0], io.MAGIC_FOOTER, 4) or not const_content(fw["post"][1], (TAG + io.FOOTER_DELTA) & 0xFFFFFFFF, 4):
+    elif shape is not None and (len(post) != 2 or not const_content(post[0], io.MAGIC_FOOTER, 4) or not const_content(post[1], (TAG + io.FOOTER_DELTA) & 0xFFFFFFFF, 4)):
         why = "payload is not followed by the magic footer and the array footer tag"
+    elif shape == "bulk":
+        c = pre[4][2]
+        want = ir.Poly.const(M * sz, 1 << 64) * ir.Poly.atom(('ld', obj, 0, 8, 'i64', 0), 1 << 64)
+        got = ir.to_poly(c.args[2], 'int', width=64, atomize=lambda t: ('ld', obj, 0, 8, 'i64', 0) if t[0] == 'ld' and t[1] == obj and t[2] == 0 and t[3] == 8 else None)
+        p = c.args[1]
+        at_start = (p[0] == 'ptr' and p[1][0] == 'mem' and p[1][1][0] == 'ld' and p[1][1][1] == obj and p[1][1][2] == 8 and p[2] == 0) or \
+                   (p[0] == 'ld' and p[1] == obj and p[2] == 8 and p[3] == 8)
+        if not at_start:
+            why = "the single payload write does not start at the beginning of the buffer (m_ptr)"
+        elif got != want:
+            why = "the single payload write transfers %s bytes, expected m_size*%d" % (got.show(), M * sz)
     else:
-        size_atom = ('ld', obj, 0, 8, 'i64', None)
+        bad, decided = writer_stream(fw, hw)
+        if bad:
+            why = bad
+        elif shape is None:
+            rep.undecided("array<%s,%d> writer: the payload is not written by one loop over the elements with constant-size writes, nor by one bulk write; %s. Re-confirm %s by reading and teach engine/rules/io_array.py the new shape"
+                          % (T, M, "consecutive writes were shown to abut, the end of the last round was not decided" if decided else "its writes could not be related to each other", FILE))
+            return None
+    if why is None and shape == "per-element":
         why = loop_shape(fw, lambda t: t[0] == 'ld' and t[1] == obj and t[2] == 0 and t[3] == 8)
         if why is None:
+            # the writes of round i tile bytes [i*M*sz, (i+1)*M*sz) of the buffer in order (M scalar writes, one
+            # whole-vector write, ...)
             items = fw["loop_items"]
-            if len(items) != M:
-                why = "each iteration writes %d scalars, expected %d" % (len(items), M)
-            else:
-                for j, it in enumerate(items):
-                    base_ok = it["base"] is not None and it["base"][0] == 'mem' and it["base"][1][0] == 'ld' and it["base"][1][1] == obj and it["base"][1][2] == 8
-                    terms = it["terms"] or []
-                    if it["bytes"] != sz or not base_ok or it["const"] != j * sz or len(terms) != 1 or terms[0][0] != M * sz or terms[0][1][0] != 'iv':
-                        why = "scalar %d of an iteration is written from %s+%s (%s bytes); expected m_ptr + i*%d + %d (%d bytes)" % (
-                            j, ir.show(it["base"])[:40] if it["base"] else "?", ir.show(it["call"].args[1][2])[:60], it["bytes"], M * sz, j * sz, sz)
-                        break
+            pos = 0
+            for j, it in enumerate(items):
+                base_ok = it["base"] is not None and it["base"][0] == 'mem' and it["base"][1][0] == 'ld' and it["base"][1][1] == obj and it["base"][1][2] == 8
+                terms = it["terms"] or []
+                if not base_ok or it["const"] != pos or len(terms) != 1 or terms[0][0] != M * sz or terms[0][1][0] != 'iv':
+                    why = "write %d of an iteration takes %s bytes from %s+%s; expected m_ptr + i*%d + %d" % (
+                        j, it["bytes"], ir.show(it["base"])[:40] if it["base"] else "?", ir.show(it["call"].args[1][2])[:60], M * sz, pos)
+                    break
+                pos += it["bytes"]
+            if why is None and pos != M * sz:
+                why = "each iteration writes %d bytes, an element has %d" % (pos, M * sz)
     if why:
         rep.fail(rid, inst, FILE, why)
         return False
-    rep.ok(rid, inst, sample={"array writer": "%s x %d" % (T, M), "grammar": ["HDR", "RAW(4)=%d" % sz, "RAW(8)=m_size", "LOOP(m_size){%d x RAW(%d)}" % (M, sz), "FTR"]} if M == 3 else None)
+    rep.ok(rid, inst, sample={"array writer": "%s x %d" % (T, M), "shape": shape, "grammar": ["HDR", "RAW(4)=%d" % sz, "RAW(8)=m_size", "LOOP(m_size){%d x RAW(%d)}" % (M, sz), "FTR"]} if M == 3 else None)
     return True
 
 
@@ -201,19 +338,24 @@ def reader_branches(hr, fr):
         return None, "reader does not start with header (2 words), width word and count word"
     wcall = pre[2].n
     eq4 = ('cmp', 'eq', ('wr', wcall, 1, 0, 4, 'i32'), ('ci', 4, 32))
+    eq8 = ('cmp', 'eq', ('wr', wcall, 1, 0, 4, 'i32'), ('ci', 8, 32))
+
+    def under(x, truth):
+        # the width word is 4 or 8 (C08.f): in the width-4 rounds eq4 holds and eq8 does not, and vice versa
+        return ir.restrict(ir.restrict(x, eq4, truth), eq8, not truth)
     out = {}
     for width, truth in ((4, True), (8, False)):
         reads = []
         for c in fr["loop"]:
-            cw = ir.restrict(c.cond, eq4, truth)
+            cw = under(c.cond, truth)
             if cw != ir.FALSE:
                 reads.append(c)
         entries = []
         for st in sorted(fr["stores"], key=lambda s_: (dyn_parts(s_.off)[0] or 0)):
-            cw = ir.restrict(st.cond, eq4, truth)
+            cw = under(st.cond, truth)
             if cw == ir.FALSE:
                 continue
-            v = ir.ungate(ir.restrict(ir.ungate(st.val), eq4, truth))
+            v = ir.ungate(under(ir.ungate(st.val), truth))
             if v[0] == 'sel':
                 # value merged from both width branches: keep the leaf fed by this branch's reads
                 mine = {c.n for c in reads}
@@ -227,8 +369,13 @@ def reader_branches(hr, fr):
                 conv = v[1]
                 inner = v[3]
             inner = io.norm_rd(inner)
+            if inner[0] == 'blk':
+                # a block copy out of the local buffer a read of this round filled (read_binary<vector_t> returns by value)
+                src_reads = [c for c in reads if c.args[1] == inner[1] and c.args[2] == ('ci', st.size, 64)]
+                if len(src_reads) == 1:
+                    inner = ('wr', src_reads[0].n, 1, 0, st.size, 'blk')
             entries.append({"const": const, "terms": terms, "conv": conv, "src": inner, "size": st.size, "store": st, "lits": ir.common_lits(cw)})
-        latch = [ir.common_lits(ir.restrict(c, eq4, truth)) for c in getattr(fr["sym"], "latch_cond", {}).values()]
+        latch = [ir.common_lits(under(c, truth)) for c in getattr(fr["sym"], "latch_cond", {}).values()]
         out[width] = {"reads": reads, "stores": entries, "latch": latch}
     return out, None
 
@@ -239,6 +386,12 @@ def check_reader(rep, rid, hr, fr):
     sz = SZ[T]
     pre = fr["pre"]
     why = None
+    if reader_shape(fr) is None:
+        fr["undecided"] = ("array<%s,%d> reader: the payload is not read by one loop over the elements with constant-size reads and directly addressed stores (%d loops); re-confirm %s by reading and teach "
+                           "engine/rules/io_array.py the new shape" % (T, M, len(fr["loops"]), FILE))
+        if hasattr(rep, "undecided"):
+            rep.undecided(fr["undecided"])
+        return None
     br, why = reader_branches(hr, fr)
     if why is None:
         if [c.args[2][1] for c in pre] != [4, 4, 4, 8]:
@@ -251,29 +404,40 @@ def check_reader(rep, rid, hr, fr):
     if why is None:
         for width in (4, 8):
             b = br[width]
-            if [c.args[2][1] for c in b["reads"]] != [width] * M:
-                why = "for on-disk width %d an iteration reads %s bytes, expected %d reads of %d" % (width, [c.args[2][1] for c in b["reads"]], M, width)
+            sizes = [c.args[2][1] for c in b["reads"]]
+            if sum(sizes) != width * M:
+                why = "for on-disk width %d an iteration reads %s bytes, expected %d bytes (%d scalars of %d)" % (width, sizes, width * M, M, width)
                 break
-            if len(b["stores"]) != M:
-                why = "an iteration stores %d scalars, expected %d" % (len(b["stores"]), M)
-                break
+            start = {}
+            acc = 0
+            for c in b["reads"]:
+                start[c.n] = acc
+                acc += c.args[2][1]
+            pos = 0
             for j, e in enumerate(b["stores"]):
                 terms = e["terms"] or []
                 want_conv = "none" if width == sz else ("fpext" if width < sz else "fptrunc")
-                src_ok = e["src"][0] == 'wr' and e["src"][1] == b["reads"][j].n and e["src"][3] == 0 and e["src"][4] == width
+                k = pos // sz           # first scalar this store covers
+                whole = want_conv == "none" and e["size"] % sz == 0          # unconverted bytes may be moved several scalars at a time
+                # scalar k of the element is bytes [k*width, (k+1)*width) of what this iteration read, in reading order
+                src_ok = e["src"][0] == 'wr' and e["src"][1] in start and start[e["src"][1]] + e["src"][3] == k * width and \
+                    (e["src"][4] == width and e["size"] == sz or whole and e["src"][4] == e["size"])
                 loopreads = {c.n for c in fr["loop"]}
                 peeks = [l for l in e["lits"] if io.state_ok_epoch(l, 0) is None and any(a[1] in loopreads for a in io.wr_atoms(l))]
                 if peeks:
-                    why = "width %d: whether element component %d is stored depends on the value just read (%s): some stored bit patterns would be refused or treated differently" % (width, j, ir.show(peeks[0])[:80])
+                    why = "width %d: whether element component %d is stored depends on the value just read (%s): some stored bit patterns would be refused or treated differently" % (width, k, ir.show(peeks[0])[:80])
                     break
-                if e["const"] != j * sz or len(terms) != 1 or terms[0][0] != M * sz or terms[0][1][0] != 'iv' or e["size"] != sz:
-                    why = "width %d: scalar %d is stored at %s, expected buffer + i*%d + %d" % (width, j, ir.show(e["store"].off)[:60], M * sz, j * sz)
+                if e["const"] != pos or len(terms) != 1 or terms[0][0] != M * sz or terms[0][1][0] != 'iv' or not (e["size"] == sz or whole):
+                    why = "width %d: store %d of an iteration goes to %s (%d bytes), expected buffer + i*%d + %d" % (width, j, ir.show(e["store"].off)[:60], e["size"], M * sz, pos)
                 elif not src_ok:
-                    why = "width %d: element component %d receives %s, expected the %d-th scalar read in this iteration" % (width, j, ir.show(e["src"])[:80], j)
+                    why = "width %d: element component %d receives %s, expected bytes %d.. of what this iteration read" % (width, k, ir.show(e["src"])[:80], k * width)
                 elif e["conv"] != want_conv:
                     why = "width %d -> in-memory %s: conversion is %s, expected %s" % (width, T, e["conv"], want_conv)
                 if why:
                     break
+                pos += e["size"]
+            if why is None and pos != M * sz:
+                why = "width %d: an iteration stores %d bytes, an element has %d" % (width, pos, M * sz)
             if why:
                 break
     if why is None:
@@ -342,12 +506,30 @@ def run_c07(rep, tier):
                 pass
         q = Quiet()
         br = check_reader(q, "x", hr, fr)
-        if br is None:
+        if br is None and fr.get("undecided"):
+            rep.undecided(fr["undecided"])
+        elif br is None:
             rep.fail("C07.b", inst, FILE, "reader: " + str(getattr(q, "failed", ["", "", "", "?"])[3]))
         else:
             rep.ok("C07.b", inst, sample={"array reader": inst, "width4": [e["conv"] for e in br[4]["stores"]], "width8": [e["conv"] for e in br[8]["stores"]]} if M == 3 else None)
-        cur = {"prefix_bytes": [p[0] for p in fw["pre"]], "width_word": fw["pre"][2][1][0][2][1] if len(fw["pre"]) > 2 and fw["pre"][2][1] else None,
-               "per_element": [it["bytes"] for it in fw["loop_items"]], "suffix_bytes": [p[0] for p in fw["post"]]}
+        shape = writer_shape(fw)
+        if shape is None:
+            bad, decided = writer_stream(fw, hw)
+            if bad:
+                rep.fail("C07.c-array", inst, FILE, bad)
+            else:
+                rep.undecided("array<%s,%d> writer: payload loop of an unrecognised shape: the on-disk grammar cannot be compared with the frozen format" % (T, M))
+            continue
+        if shape == "bulk":
+            # one write of m_size * M * sizeof(scalar) buffer bytes: the same byte stream as M scalars per element in order (C06.A-write decides the size)
+            cur = {"prefix_bytes": [p[0] for p in fw["pre"][:4]], "width_word": fw["pre"][2][1][0][2][1] if fw["pre"][2][1] else None,
+                   "per_element": [SZ[T]] * M, "suffix_bytes": [p[0] for p in fw["pre"][5:7]]}
+        else:
+            per = [it["bytes"] for it in fw["loop_items"]]
+            if sum(per) == M * SZ[T] and all(it["const"] == sum(per[:j]) for j, it in enumerate(fw["loop_items"])):
+                per = [SZ[T]] * M       # writes that tile one element in order are the same byte stream as M scalar writes
+            cur = {"prefix_bytes": [p[0] for p in fw["pre"]], "width_word": fw["pre"][2][1][0][2][1] if len(fw["pre"]) > 2 and fw["pre"][2][1] else None,
+                   "per_element": per, "suffix_bytes": [p[0] for p in fw["post"]]}
         if inst not in frozen:
             raise AnalysisBroken("array instantiation %s missing from the frozen format table" % inst)
         if cur != frozen[inst]:
@@ -396,30 +578,48 @@ def run_c08(rep, tier):
             else:
                 rep.ok("C08.f", inst)
             why = None
-            if not fr["loop"]:
+            sym = fr["sym"]
+            # shape-independent part: every read inside a loop is followed by a state test that guards every store of
+            # the bytes it delivered and every back edge of the loops it is in, and whose failure throws
+            tc = [c.cond for c in sym.calls if c.name == io.THROW]
+            latches = getattr(sym, "latch_cond", {})
+            for c in fr["loop"]:
+                k = c.n
+                hdrs = set(sym.in_loop(c.block))
+
+                def on_my_path(x):
+                    # the condition restricted to the rounds in which this read executes (e.g. its on-disk width branch)
+                    for l in ir.common_lits(c.cond):
+                        x = ir.restrict(x, l[1] if l[0] == 'not' else l, l[0] != 'not')
+                    return x
+                mine = [ir.common_lits(on_my_path(x)) for (src, dst), x in latches.items() if dst in hdrs]
+                mine = [x for x in mine if ir.FALSE not in x]
+                stores = [(st, ir.common_lits(on_my_path(st.cond))) for st in fr["stores"]]
+                lit = next((l for lits in [x for _, x in stores] + mine for l in lits if io.state_ok_epoch(l, 0) == k + 1), None)
+                if lit is None:
+                    why = "read #%d in the loop is not followed by a stream-state test before the loop goes round again: after a failed read the loop keeps reading (garbage, or a hang if its progress depends on the bytes delivered)" % k
+                    break
+                if any(lit not in lits for st, lits in stores if any(a[1] == k for a in io.wr_atoms(st.val))):
+                    why = "a value from read #%d is stored although its state test may have failed" % k
+                    break
+                if not mine or not all(lit in x for x in mine):
+                    why = "the loop continues although the state test after read #%d may have failed" % k
+                    break
+                if not any(ir.occurs_positive(x, ir.mk_not(lit)) for x in tc) or fr["asserts"]:
+                    why = "no throw is taken exactly when the state test after read #%d fails" % k
+                    break
+            if why is None and not fr["loop"] and fr["loops"]:
                 why = "no read inside the element loop"
-            br, err = reader_branches(hr, fr)
+            if why is None and reader_shape(fr) is None:
+                rep.undecided("array<%s,%d> reader: payload loop of an unrecognised shape (%d loops): per-width coverage of C08.g not decided" % (T, M, len(fr["loops"])))
+                continue
+            br, err = (None, None) if why else reader_branches(hr, fr)
             if err:
                 why = err
             for width in ((4, 8) if why is None else ()):
                 b = br[width]
                 if not b["reads"]:
                     why = "for on-disk width %d the loop reads nothing: it can go round without a checked read" % width
-                for c in b["reads"]:
-                    k = c.n
-                    guards = [e for e in b["stores"] if any(io.state_ok_epoch(l, 0) == k + 1 for l in e["lits"])]
-                    users = [e for e in b["stores"] if any(a[1] == k for a in io.wr_atoms(e["src"]))]
-                    lit = next((l for e in b["stores"] + [{"lits": x} for x in b["latch"]] for l in e["lits"] if io.state_ok_epoch(l, 0) == k + 1), None)
-                    if lit is None:
-                        why = "width %d: read #%d in the loop is not followed by a stream-state test" % (width, k)
-                        break
-                    if any(e not in guards for e in users):
-                        why = "width %d: a value from read #%d is stored although its state test may have failed" % (width, k)
-                    if not any(lit in x for x in b["latch"]):
-                        why = "width %d: the loop continues although the state test after read #%d may have failed" % (width, k)
-                    tc = [c.cond for c in fr["sym"].calls if c.name == io.THROW]
-                    if not any(ir.occurs_positive(c, ir.mk_not(lit)) for c in tc) or fr["asserts"]:
-                        why = "width %d: no throw is taken exactly when the state test after read #%d fails" % (width, k)
             # allocation size from checked count
             for nw in fr["news"]:
                 if not any(io.state_ok_epoch(l, 0) == ccall + 1 for l in ir.common_lits(nw.cond)):
